@@ -8,7 +8,8 @@ socket runs under `vf.mon.sockshim`: every send()/recv()/do_handshake() of that 
 script (pass | truncate to k bytes | would-block | SSLWantRead/Write | short read of k bytes) and every byte that
 the real call accepted / returned is recorded.  In "pressure" cases the kernel itself makes the partial sends
 (tiny SO_SNDBUF/SO_RCVBUF, a peer that reads slowly, payloads up to 1 MiB).  In "pair" cases both ends are hio
-objects, each under its own script.
+objects, each under its own script.  In "late" cases the client is opened and tx() is called before its server listens
+(refused connects and the reconnect tymer replace the client's socket while bytes are queued), then the listener comes up.
 
 With T = concatenation of the payloads handed to tx() so far, after EVERY service call of the monitored end:
   conservation   T == bytes accepted by the real send() calls + bytes(txbs)          (nothing lost / duplicated / reordered)
@@ -32,7 +33,7 @@ ID = "C09"
 LEVEL = "exploration"
 RULE = ("A case = role (Client | ClientTls | Remoter | RemoterTls, or a Client<->Remoter pair, plain or TLS) x a schedule of "
         "tx(payload) / far-side write / service / far-side read steps (payloads: empty, 1..16 B, <= 2 kB, <= 40 kB, "
-        "256 KiB..1 MiB in pressure cases) x per-socket scripts for send (pass, truncate to k in [0,n], EAGAIN/EWOULDBLOCK "
+        "256 KiB..1 MiB in pressure cases; 'late' histories start with tx/service/tymist-tick steps against a port nobody listens on) x per-socket scripts for send (pass, truncate to k in [0,n], EAGAIN/EWOULDBLOCK "
         "or SSLWantRead/Write), recv (pass, short read, would-block while data is pending) and do_handshake (SSLWant*). "
         "Non-trivial = the monitored socket saw at least one partial send AND at least one would-block on send or recv "
         "(injected or kernel-made); distinct = by role + the sequence of injected actions that took effect + shim statistics.")
@@ -55,10 +56,12 @@ BUDGET_S = {"quick": 60, "thorough": 480}   # soft stop; REQUIRE below is what m
 REQUIRE = {
     "quick": {"conservation_checks": 3000, "partial_sends": 300, "send_blocks": 150, "short_reads": 150,
               "recv_blocks_injected": 100, "real_partial_sends": 5, "wirelog_checks": 200, "tls_cases": 40,
-              "pair_cases": 10, "completed_cases": 300},
+              "pair_cases": 10, "completed_cases": 300, "late_cases_completed": 40, "late_reopens_before_listen": 80,
+              "late_cases_reconnectable": 10},
     "thorough": {"conservation_checks": 50000, "partial_sends": 5000, "send_blocks": 2500, "short_reads": 2500,
                  "recv_blocks_injected": 1500, "real_partial_sends": 100, "wirelog_checks": 2500, "tls_cases": 1000,
-                 "pair_cases": 250, "completed_cases": 5000},
+                 "pair_cases": 250, "completed_cases": 5000, "late_cases_completed": 400, "late_reopens_before_listen": 800,
+                 "late_cases_reconnectable": 100},
 }
 PEAK_COUNTERS = ("peak_finish_rounds", "peak_payload_bytes")
 
@@ -172,6 +175,21 @@ def gen_case(rng, tier, flavor, role):
     return case
 
 
+def gen_late(rng, tier):
+    """Client opened and written to BEFORE its server listens: refused connects (accept() reopens the socket), the
+    reconnect tymer (hand-ticked Tymist) reopening it too, tx() in between; then the listener comes up."""
+    role = rng.choice(["Client", "Client", "ClientTls"])
+    case = gen_case(rng, tier, "script", role)
+    case["flavor"] = "late"
+    pre = [["tx", _payload(rng, 3000)]]
+    for _ in range(rng.randint(2, 10)):
+        r = rng.random()
+        pre.append(["tx", _payload(rng, 3000)] if r < 0.3 else ["tick"] if r < 0.5 else ["svc"])
+    pre.append(["svc"])
+    case["late"] = {"pre": pre, "reconnectable": rng.random() < 0.5, "tymeout": rng.choice([0.125, 0.25, 0.5])}
+    return case
+
+
 def cases(tier, seed, shard, nshards):
     rng = random.Random(f"{seed}:C09:{shard}")
     n = NCASES[tier] // nshards
@@ -180,7 +198,9 @@ def cases(tier, seed, shard, nshards):
         role = ROLES[(i + shard) % 4] if rng.random() < 0.75 else rng.choice(ROLES)
         if i == 0 or r < 0.03:
             yield gen_case(rng, tier, "pressure", role)
-        elif r < 0.13:
+        elif i == 1 or r < 0.11:
+            yield gen_late(rng, tier)
+        elif r < 0.21:
             yield gen_case(rng, tier, "pair", rng.choice(["Client", "ClientTls"]))
         else:
             yield gen_case(rng, tier, "script", role)
@@ -438,15 +458,54 @@ def _tune(sock, case):
 def connect_client_raw(case, ctx, cl):
     role = case["role"]
     tls = role.endswith("Tls")
-    ls = cl.add(tk.harness_listener(rcvbuf=case.get("peer_rcvbuf")))
+    late = case.get("late")
     wl = cl.add(mk_wl())
-    client = cl.add(tk.open_client(tcp, ls.getsockname()[1], tls=tls, wl=wl, bs=case["bs"], tymth=tyming.Tymist().tymen()))
+    tymist = tyming.Tymist(tock=0.125)
+    if late:
+        port = tk.quiet_port(_state["ports"])   # nobody listens there yet: connects are refused
+        ls = None
+        kw = {"reconnectable": late["reconnectable"], "tymeout": late["tymeout"]}
+    else:
+        ls = cl.add(tk.harness_listener(rcvbuf=case.get("peer_rcvbuf")))
+        port = ls.getsockname()[1]
+        kw = {}
+    client = cl.add(tk.open_client(tcp, port, tls=tls, wl=wl, bs=case["bs"], tymth=tymist.tymen(), **kw))
     script = sh.register(client.cs, mk_script(case["near"], role))
     _tune(client.cs, case)
     mon = Mon(ctx, role, client, client.service, script, wl)
+    reopens = 0
+
+    def follow():
+        """A refused connect / expired reconnect tymer makes the client replace its socket: same script, same record."""
+        nonlocal reopens
+        if client.cs is not None and sh.script_of(client.cs) is not script:
+            sh.register(client.cs, script)
+            reopens += 1
+
+    if late:
+        for op in late["pre"]:
+            if op[0] == "tx":
+                mon.tx(materialize(op[1]))
+            elif op[0] == "tick":
+                tymist.tick()
+            else:
+                mon.service()     # conservation is judged here too: nothing sent yet, so txbs must still be all of T
+                follow()
+        if client.connected or client.accepted:
+            raise RuntimeError("harness: the quiet port accepted a connection")
+        ctx.count("late_cases")
+        ctx.count("late_reopens_before_listen", reopens)
+        ctx.count("late_bytes_queued_before_listen", len(mon.T))
+        if late["reconnectable"]:
+            ctx.count("late_cases_reconnectable")
+        ls = cl.add(tk.harness_listener(rcvbuf=case.get("peer_rcvbuf"), port=port))
     peer = None
     for _ in range(CONNECT_ROUNDS):
-        guarded(ctx, role, client.service, mon)
+        if late:
+            mon.service()   # tyme stands still now: a reconnect tymeout shorter than a connect would never connect
+            follow()
+        else:
+            guarded(ctx, role, client.service, mon)
         if peer is None:
             try:
                 s = tk.accept_from(ls, client.cs)
@@ -625,6 +684,8 @@ def _run(case, ctx, cl):
         ctx.count("pair_cases")
     if flavor == "pressure":
         ctx.count("pressure_cases")
+    if flavor == "late":
+        ctx.count("late_cases_completed")
     nontrivial = False
     for m in mons:
         st = m.script.stats
